@@ -292,6 +292,10 @@ def ctor_cases():
     add("CDS(empty)", lambda: CDSInterval([3], [3], P, [Z]))
     add("CDS(mix)", lambda: CDSInterval([0, 7], [5, 9], P, [CDSPhase.ZERO, O]))
     add("CDS(start>end)", lambda: CDSInterval([5], [2], P, [Z]))
+    # ("GFF3MissingSequenceNameError: If there are no sequence names associated with this ..." - docstring of every to_gff)
+    add("CDS(no sequence name).to_gff", lambda: list(CDSInterval([0], [9], P, [Z], parent_or_seq_chunk_parent=chrom()).to_gff()), must_refuse="GFF3MissingSequenceNameError")
+    add("Feature(no sequence name).to_gff", lambda: list(FeatureInterval([0], [9], P, parent_or_seq_chunk_parent=chrom()).to_gff()), must_refuse="GFF3MissingSequenceNameError")
+    add("Transcript(no sequence name).to_gff", lambda: list(TranscriptInterval([0], [9], P, parent_or_seq_chunk_parent=chrom()).to_gff()), must_refuse="GFF3MissingSequenceNameError")
     # NONE is the frame / phase of rows that are not CDS: a CDS block without a frame has no reading frame to speak of
     from inscripta.biocantor.gene.cds_frame import CDSFrame as _F
     add("CDS(frame NONE)", lambda: CDSInterval([0], [9], P, [_F.NONE], parent_or_seq_chunk_parent=chrom()), must_refuse=True)
